@@ -239,53 +239,79 @@ def lut(tbl, base, w):
     """table[base]; len(tbl) == 2**base.w, base.w <= 8 (RAW keeps it a node)."""
     if not isinstance(base, Term):
         return tbl[base] & _mask(w)
-    assert base.w <= 8 and len(tbl) == (1 << base.w), (base, len(tbl))
+    n = len(tbl)
+    assert base.w <= 8 and n == (1 << base.w), (base, n)
+    m = _mask(w)
     if not RAW and not NOLUT:
         lc = _lutc(base)
         if lc is not None:
             k = lc[1]
             return lut([tbl[v ^ k] for v in lc[0].val], lc[0].args[0], w)
         # base = simple function of another <=8-bit term: and/or/xor with a constant, constant shifts, not
-        if base.op in ('and', 'or', 'xor') and len(base.args) == 2 and base.args[1].op == 'const':
+        bop = base.op
+        if bop in ('and', 'or', 'xor') and len(base.args) == 2 and base.args[1].op == 'const':
             k = base.args[1].val
-            f = {'and': lambda i: i & k, 'or': lambda i: i | k, 'xor': lambda i: i ^ k}[base.op]
-            return lut([tbl[f(i)] for i in range(len(tbl))], base.args[0], w)
-        if base.op in ('shl', 'lshr') and base.args[1].op == 'const':
+            if bop == 'and':
+                return lut([tbl[i & k] for i in range(n)], base.args[0], w)
+            if bop == 'or':
+                return lut([tbl[i | k] for i in range(n)], base.args[0], w)
+            return lut([tbl[i ^ k] for i in range(n)], base.args[0], w)
+        if bop in ('shl', 'lshr') and base.args[1].op == 'const':
             sh = base.args[1].val
             bm = _mask(base.w)
-            f = (lambda i: (i << sh) & bm) if base.op == 'shl' else (lambda i: i >> sh)
-            return lut([tbl[f(i)] for i in range(len(tbl))], base.args[0], w)
-        if base.op == 'not':
+            if bop == 'shl':
+                return lut([tbl[(i << sh) & bm] for i in range(n)], base.args[0], w)
+            return lut([tbl[i >> sh] for i in range(n)], base.args[0], w)
+        if bop == 'not':
             bm = _mask(base.w)
-            return lut([tbl[bm & ~i] for i in range(len(tbl))], base.args[0], w)
+            return lut([tbl[bm & ~i] for i in range(n)], base.args[0], w)
+    allfeas = (base.k0 | base.k1) == 0
     if not RAW:
-        feas = [tbl[i] & _mask(w) for i in range(len(tbl)) if _feasible(base, i)]
-        if feas and all(v == feas[0] for v in feas):
-            return feas[0]
-        if len(tbl) == (1 << w) and w == base.w and all(tbl[i] == i for i in range(len(tbl))):
+        if allfeas:
+            feas = tbl
+        else:
+            feas = [tbl[i] for i in range(n) if _feasible(base, i)]
+        if feas:
+            f0 = feas[0] & m
+            same = True
+            for v in feas:
+                if (v & m) != f0:
+                    same = False
+                    break
+            if same:
+                return f0
+        if n == (1 << w) and w == base.w and tbl[1 % n] == 1 % n and all(tbl[i] == i for i in range(n)):
             return base
-    m = _mask(w)
     if not RAW and not NOLUT:
         # canonical form: the first selectable entry is 0, the rest of the constant is an xor operand
-        first = None
-        for i in range(len(tbl)):
-            if _feasible(base, i):
-                first = tbl[i] & m
-                break
+        first = (feas[0] & m) if feas else 0
         if first:
             return _ac('xor', w, [lut([(v ^ first) & m for v in tbl], base, w), first])
-    if RAW:
+    if RAW or allfeas:
         tbl = _intern_table([v & m for v in tbl])
+        sel = tbl
     else:
         # entries the base can never select (by its known bits) are canonicalised to 0
         tbl = _intern_table([(v & m) if _feasible(base, i) else 0 for i, v in enumerate(tbl)])
+        sel = [v for i, v in enumerate(tbl) if _feasible(base, i)]
     k1 = m
     k0 = m
-    for i, v in enumerate(tbl):
-        if _feasible(base, i):
-            k1 &= v
-            k0 &= ~v
+    for v in sel:
+        k1 &= v
+        k0 &= ~v
+        if not (k1 | k0):
+            break
     return _fin('lut', w, (base,), tbl, k0, k1)
+
+
+def _atom(x):
+    """x (or x under a zext) is a non-constant, non-lut term of <= 8 bits: usable as a lut base"""
+    if isinstance(x, Term):
+        if x.op == 'zext':
+            x = x.args[0]
+        if x.w <= 8 and x.op not in ('const', 'lut') and _lutc(x) is None:
+            return x
+    return None
 
 
 def _fold2(fn, w_out, a, wa, b, wb):
@@ -295,6 +321,12 @@ def _fold2(fn, w_out, a, wa, b, wb):
     base = _lut_base(a)
     if base is None:
         base = _lut_base(b)
+    if base is None:
+        # a unary function of one small term (operation with a constant): promote to a lut
+        if not isinstance(b, Term):
+            base = _atom(a)
+        elif not isinstance(a, Term):
+            base = _atom(b)
     if base is None:
         return None
     ta = _as_fn_of_z(a, wa, base)
@@ -323,6 +355,9 @@ def _fold1(fn, w_out, a, wa):
         if lc is not None:
             k = lc[1]
             return lut([fn(v ^ k) for v in lc[0].val], lc[0].args[0], w_out)
+        at = _atom(a)
+        if at is not None and a is at:
+            return lut([fn(v) for v in range(1 << at.w)], at, w_out)
     return None
 
 
@@ -371,6 +406,20 @@ def _ac(op, w, xs):
         return 0
     if op == 'or' and acc == m:
         return m
+    if op == 'xor' and w == 1 and acc == 1 and terms:
+        return bnot(1, _ac('xor', 1, terms))
+    if op == 'xor' and w == 1:
+        # not(x) operands: pull the negations out
+        flips = 0
+        nt = []
+        for t in terms:
+            if t.op == 'not':
+                flips ^= 1
+                nt.append(t.args[0])
+            else:
+                nt.append(t)
+        if flips:
+            return bnot(1, _ac('xor', 1, nt))
     terms.sort(key=lambda t: t.id)
     out = []
     if op == 'xor':
@@ -453,6 +502,14 @@ def band(w, a, b):
         r = _fold2(lambda x, y: x & y, w, a, w, b, w)
         if r is not None:
             return r
+        if not NOLUT:
+            hi = min(umax(a, w), umax(b, w)).bit_length()
+            if hi + 8 <= w and hi > 0 and (isinstance(a, Term) or isinstance(b, Term)):
+                return zext(hi, w, band(hi, trunc(w, hi, a), trunc(w, hi, b)))
+            # x & (2^k - 1) on a zero-extended narrower value is the value itself
+            for x, y in ((a, b), (b, a)):
+                if not isinstance(y, Term) and isinstance(x, Term) and (umax(x, w) & ~y) == 0:
+                    return x
     return _ac('and', w, [a, b])
 
 
@@ -475,9 +532,10 @@ def bnot(w, a):
     if not RAW:
         if a.op == 'not':
             return a.args[0]
-        r = _fold1(lambda v: m & ~v, w, a, w)
-        if r is not None:
-            return r
+        if w > 1:
+            r = _fold1(lambda v: m & ~v, w, a, w)
+            if r is not None:
+                return r
     return _fin('not', w, (a,), None, a.k1, a.k0)
 
 
@@ -520,6 +578,9 @@ def add(w, a, b):
         ha = umax(a, w).bit_length()
         hb = umax(b, w).bit_length()
         hi = max(ha, hb) + 1
+        if hi + 8 <= w:
+            # compute at the narrow width and extend (keeps the solver's adders small)
+            return zext(hi, w, add(hi, trunc(w, hi, a), trunc(w, hi, b)))
         k0 = m & ~_mask(hi) if hi < w else 0
         return _fin('add', w, (_c(a, w), _c(b, w)), None, k0, 0)
     return _fin('add', w, (_c(a, w), _c(b, w)))
@@ -555,6 +616,8 @@ def mul(w, a, b):
         if isinstance(a, Term) and isinstance(b, Term) and a.id > b.id:
             a, b = b, a
         hi = umax(a, w).bit_length() + umax(b, w).bit_length()
+        if hi + 8 <= w and hi > 0:
+            return zext(hi, w, mul(hi, trunc(w, hi, a), trunc(w, hi, b)))
         k0 = m & ~_mask(hi) if hi < w else 0
         return _fin('mul', w, (_c(a, w), _c(b, w)), None, k0, 0)
     return _fin('mul', w, (_c(a, w), _c(b, w)))
@@ -684,6 +747,11 @@ def lshr(w, a, s):
             r = _fold1(lambda v: v >> s, w, a, w)
             if r is not None:
                 return r
+            if a.op == 'zext' and not NOLUT:
+                inner = a.args[0]
+                if s >= inner.w:
+                    return 0
+                return zext(inner.w, w, lshr(inner.w, inner, s))
             if a.op == 'xor' and not NOLUT and any(x.op == 'lut' for x in a.args):
                 return _ac('xor', w, [lshr(w, _u(x), s) for x in a.args])
         k0 = ((a.k0 >> s) | (m & ~(m >> s))) & m
@@ -758,6 +826,13 @@ def trunc(w_from, w_to, a):
             return _ac(a.op, w_to, [trunc(w_from, w_to, x) for x in a.args])
         if a.op == 'shl' and a.args[1].op == 'const':
             return shl(w_to, trunc(w_from, w_to, a.args[0]), a.args[1].val)
+        if a.op in ('add', 'sub', 'mul'):
+            f = {'add': add, 'sub': sub, 'mul': mul}[a.op]
+            return f(w_to, trunc(w_from, w_to, _u(a.args[0])), trunc(w_from, w_to, _u(a.args[1])))
+        if a.op == 'lshr' and a.args[1].op == 'const' and a.args[0].op == 'zext' \
+                and a.args[0].args[0].w <= w_to:
+            inner = a.args[0].args[0]
+            return zext(inner.w, w_to, lshr(inner.w, inner, a.args[1].val)) if inner.w < w_to else lshr(w_to, inner, a.args[1].val)
         if a.op == 'ite':
             return ite(w_to, a.args[0], trunc(w_from, w_to, _u(a.args[1])), trunc(w_from, w_to, _u(a.args[2])))
     return _fin('trunc', w_to, (a,), None, a.k0 & m, a.k1 & m)
